@@ -17,7 +17,7 @@ TRUSTED = [
     'translator harness/translate.py and this correspondence harness',
 ]
 ASSUMPTIONS = ['K6: header blocks RFC 4880 allows but that are not exactly one Hash line + one empty line are returned as part of the body (known finding)']
-RULE = ('well-formed messages (with / without Hash header, armor headers, 1-30 body lines incl. empty, dash-escaped and field-syntax lines, LF / CRLF, final newline or not); '
+RULE = ('well-formed messages (with / without Hash header, armor headers, 1-30 body lines incl. empty, dash-escaped and field-syntax lines, LF / CRLF, final newline or not; one in three preceded by blank lines and followed by white space of 0-5000 characters); '
         'malformed variants (damaged CRC / base64 / END line, missing blank line, nested blocks, garbage before / after, mixed terminators, body lines that look like armor lines); arbitrary texts. '
         'non-trivial = the text is enveloped')
 TECHNIQUE = ('Lean 4 theorems about the model (identity without an envelope; the result is the input or a joined prefix of lines after the BEGIN line) + executable spec on every observation + '
@@ -48,7 +48,28 @@ def wellformed(rng):
     crc = rand_b64(rng, 4)
     crlf = rng.random() < 0.4
     fin = rng.random() < 0.7
-    return mk(form, hashes, body, ah, b64, crc, crlf, fin)
+    m = mk(form, hashes, body, ah, b64, crc, crlf, fin)
+    if rng.random() < 0.3:
+        pre, post = pad(rng, True), pad(rng, False)
+        if pre or post:
+            m[8] = pre + m[8].rstrip() + post
+    return m
+
+
+WS = ' \t\n\r\x0b\x0c\x1c\x85\xa0\u2028\u3000'
+
+
+def pad(rng, before):
+    """white space around the message: blank lines before it, anything after it; now and then longer than any window a shortcut would look at"""
+    n = rng.choice((0, 1, 2, 5, 40, 200, 255, 256, 257, 300, 1000, 5000))
+    kind = rng.random()
+    if kind < 0.4:
+        s = rng.choice((' ', '\n', ' \n', '\t')) * n
+    else:
+        s = ''.join(rng.choice(WS) for _ in range(n))
+    if before and s:
+        s = s + '\n'
+    return s
 
 
 def mk(form, hashes, body, ah, b64, crc, crlf, fin):
@@ -61,7 +82,13 @@ def mk(form, hashes, body, ah, b64, crc, crlf, fin):
 
 def normalize(op, inp):
     if op == 'C16w':
-        return mk(*inp[:8])
+        base = mk(*inp[:8])
+        old = inp[8] if isinstance(inp[8], str) else ''
+        pre = old[:len(old) - len(old.lstrip())]
+        post = old[len(old.rstrip()):]
+        if pre or post not in ('', '\n', '\r\n'):
+            base[8] = pre + base[8].rstrip() + post
+        return base
     return inp
 
 
@@ -186,7 +213,7 @@ def histogram(op, inp, obs):
 def valid_input(op, inp):
     if op == 'C16w':
         try:
-            return inp == mk(*inp[:8]) and inp[0] in (0, 1, 2, 3, 4) and (inp[1] is not None or inp[0] in (0, 2))
+            return inp == normalize(op, inp) and inp[0] in (0, 1, 2, 3, 4) and (inp[1] is not None or inp[0] in (0, 2))
         except Exception:
             return False
     return isinstance(inp, str)
